@@ -35,6 +35,7 @@ func init() {
 
 	*BuiltInErrObj = *NewPanObj(&map[SymHash]Pair{}, BuiltInObjObj)
 	*BuiltInAssertionErr = *NewPanObj(&map[SymHash]Pair{}, BuiltInErrObj)
+	*BuiltInFileNotFoundErr = *NewPanObj(&map[SymHash]Pair{}, BuiltInErrObj)
 	*BuiltInNameErr = *NewPanObj(&map[SymHash]Pair{}, BuiltInErrObj)
 	*BuiltInNoPropErr = *NewPanObj(&map[SymHash]Pair{}, BuiltInErrObj)
 	*BuiltInNotImplementedErr = *NewPanObj(&map[SymHash]Pair{}, BuiltInErrObj)
